@@ -246,6 +246,83 @@ REACH = ["end", "replay-started", "second-replay-started", "finished/ok", "finis
          "idle-clean", "deferred-wakeup"] + [f"rejected/{k}" for k in UNREPLAYABLE]
 
 
+def h_replay_handler(X):
+    """the REAL ReplayHandler (server.ConnectionHandler + HttpLayer, real asyncio loop) for replays that end without any
+    server transport: an addon answers or kills the replayed request in a hook.  `replay()` must complete and the flow
+    must end with a response or an error -- otherwise playback() would wait forever and nothing queued behind it runs."""
+    import asyncio
+
+    from mitmproxy import http
+    from mitmproxy.addons import clientplayback
+    from mitmproxy.test import tflow
+    from vf import sansio
+
+    what = X.choose("addon_action", ["respond", "kill"])
+    where = X.choose("in_hook", ["requestheaders", "request"])
+    method = X.choose("method", ["GET", "POST"])
+    with_old_response = X.boolean("recorded_response")
+    mode = X.choose("mode", [None, "upstream:http://proxy.test:3128"])
+    opts = _replay_opts(mode)
+    f = tflow.tflow(resp=with_old_response)
+    f.live = False
+    f.request.method = method
+    f.request.content = b"body" if method == "POST" else b""
+    hooks = []
+
+    class _Addons:
+        async def handle_lifecycle(self, hook):
+            hooks.append(hook.name)
+            (data,) = hook.args()
+            if hook.name == where:
+                if what == "respond":
+                    data.response = http.Response.make(200, b"canned")
+                else:
+                    data.kill()
+
+    class _Master:
+        addons = _Addons()
+
+    saved = clientplayback.ctx.__dict__.get("master", None)
+    clientplayback.ctx.master = _Master()
+    result = {}
+
+    async def main():
+        f.response = None
+        h = clientplayback.ReplayHandler(f, opts)
+        try:
+            await asyncio.wait_for(h.replay(), 5)
+            result["done"] = True
+        except asyncio.TimeoutError:
+            result["done"] = False
+
+    try:
+        asyncio.run(main())
+    finally:
+        if saved is None:
+            clientplayback.ctx.__dict__.pop("master", None)
+        else:
+            clientplayback.ctx.master = saved
+    X.reach("ran")
+    X.check(result.get("done"), f"C53/replay-handler/never-completes/{what}-in-{where}",
+            f"ReplayHandler.replay() did not complete within 5 s after the addon chose to {what} in {where}; hooks fired: {hooks}")
+    X.check(f.response is not None or f.error is not None, f"C53/replay-handler/no-outcome/{what}-in-{where}", f"hooks {hooks}")
+    X.reach("completed-without-server")
+
+
+_REPLAY_OPTS = {}
+
+
+def _replay_opts(mode):
+    from vf import sansio
+
+    if mode not in _REPLAY_OPTS:
+        o = sansio.make_options()
+        if mode:
+            o.update(mode=[mode])
+        _REPLAY_OPTS[mode] = o
+    return _REPLAY_OPTS[mode]
+
+
 def obligations(tier):
     n = 4 if tier == "quick" else 5
     obs = [
@@ -254,6 +331,10 @@ def obligations(tier):
              encoded=ENCODED, must_reach=REACH + ["finished/crash"], parallel_depth=2,
              stubs=["ReplayHandler.replay -> harness-completed awaitable", "asyncio running-loop pointer set to a non-running loop"]),
     ]
+    obs.append(Symx("replay-handler-completes", h_replay_handler,
+                    bounds="real ReplayHandler.replay under a real asyncio loop: addon {responds, kills} in {requestheaders, request} x GET/POST x flow recorded with/without response x {direct, upstream} mode (no server connection is ever opened)",
+                    encoded=ENCODED + ["mitmproxy.addons.clientplayback:ReplayHandler.handle_hook", "mitmproxy.addons.clientplayback:ReplayHandler.replay"],
+                    must_reach=["ran", "completed-without-server"], stubs=["ctx.master.addons.handle_lifecycle -> harness addon"]))
     if tier != "quick":
         obs.append(Symx("replay-history-6", lambda X: h_history(X, OPS_SMALL, 6),
                         bounds=f"every history of <= 6 steps over {OPS_SMALL}",
